@@ -3,7 +3,7 @@
 (* C03, suite (c): every single-token deletion, duplication and replacement  *)
 (* of valid programs.  The programs (the tokenised corpus and accepted       *)
 (* programs of suite (b)) arrive as ndjson through VERIF_IN:                 *)
-(*    {"id": i, "ctx": "plain"|"host"|"top"|"fn", "ts": [tokens]}            *)
+(*    {"id": i, "ctx": "plain" | <name of a context of Syntax>, "ts": [..]}  *)
 (*                                                                           *)
 (*   state  st = [k |-> "start"] | [k |-> "prog", i] | [k |-> "mut", i, m]   *)
 (*   actions PickProgram, ApplyMutation                                      *)
@@ -48,7 +48,7 @@ Spec == Init /\ [][Next]_st
 MutInv == st.k = "mut" => MutationLaw(Progs[st.i].ts, st.m)
 ProgInv == st.k = "prog" => /\ Len(Progs[st.i].ts) > 0
                             /\ Progs[st.i].id = st.i
-                            /\ Progs[st.i].ctx \in {"plain", "host", "top", "fn", "use"}
+                            /\ Progs[st.i].ctx \in {"plain"} \cup {c.name : c \in Contexts}
 OutcomeInv == /\ Admissible("any") = Outcomes
               /\ Admissible("Program") = {"Program"}
               /\ ~OutcomeStep("Text", "Panic")
